@@ -473,7 +473,14 @@ static bool gen_c15(uint64_t seed, const std::string &tier, uint64_t i, Plan &p)
   int64_t horizon = std::min<int64_t>(lifetime, 700000) + 500000;
   p.ops.push(Json::obj().set("op", "settle").set("max_s", (long long)horizon));
   p.knobs.set("max_sim_s", (long long)(horizon * 3 + 4000000)).set("expect_drain", false);
-  p.label = "msgs=" + std::to_string(nmsg) + " planted=" + std::to_string(nplant) + " lifetime=" + std::to_string(lifetime) + (conc1 ? " conc=1" : "") + " events=" + std::to_string(nev);
+  // a spawner is lost with a delivery outstanding (it crashed, it was killed): the daemon has to notice (end of file on the report
+  // pipe), say so and exit; restarted, it must still get every message out of the queue in bounded time
+  bool lost = false;
+  if (nplant == 0 && r.chance(0.25)) {
+    for (auto &op : p.ops.a) if (op.gets("op") == "script" && !lost && r.chance(0.6)) { Json &at = op.at("attempts"); Json d = Json::obj(); d.set("v", "Z").set("text", "never sent").set("lat", (long long)r.below(3)).set("die", true); at.a.insert(at.a.begin() + (long)r.below(std::min<size_t>(at.a.size(), 2)), d); lost = true; }
+    if (lost) { for (int q = 0; q < 2; q++) { p.ops.push(Json::obj().set("op", "boot")); p.ops.push(Json::obj().set("op", "settle").set("max_s", (long long)horizon)); } p.knobs.set("expect_drain", true).set("max_sim_s", (long long)(horizon * 6 + 4000000)); }
+  }
+  p.label = "msgs=" + std::to_string(nmsg) + " planted=" + std::to_string(nplant) + " lifetime=" + std::to_string(lifetime) + (conc1 ? " conc=1" : "") + " events=" + std::to_string(nev) + (lost ? " lost-spawner" : "");
   return true;
 }
 
